@@ -22,11 +22,9 @@ func (h *merkleDamgardHasher) Write(p []byte) (n int, err error) {
 	return
 }
 
+// Sum appends the current digest to b and returns the resulting slice. It does not change the state of the hasher.
 func (h *merkleDamgardHasher) Sum(b []byte) []byte {
-	if _, err := h.Write(b); err != nil {
-		panic(err)
-	}
-	return h.state
+	return append(b, h.state...)
 }
 
 func (h *merkleDamgardHasher) Reset() {
@@ -41,12 +39,14 @@ func (h *merkleDamgardHasher) BlockSize() int {
 	return h.f.BlockSize()
 }
 
+// State returns a copy of the current state.
 func (h *merkleDamgardHasher) State() []byte {
-	return h.state
+	return append([]byte(nil), h.state...)
 }
 
+// SetState sets the state to a copy of state.
 func (h *merkleDamgardHasher) SetState(state []byte) error {
-	h.state = state
+	h.state = append([]byte(nil), state...)
 	return nil
 }
 
@@ -65,9 +65,10 @@ func (h *merkleDamgardHasher) SetState(state []byte) error {
 // function. Its preimage should not be known and thus it should be generated
 // using a deterministic method.
 func NewMerkleDamgardHasher(f Compressor, initialState []byte) StateStorer {
+	iv := append([]byte(nil), initialState...)
 	return &merkleDamgardHasher{
-		state: initialState,
-		iv:    initialState,
+		state: iv,
+		iv:    iv,
 		f:     f,
 	}
 }
